@@ -515,13 +515,16 @@ class Mir:
                 last = split_top(name, '::')[-1]
                 self.by_method.setdefault(last, []).append(body)
             else:
-                m = re.match(r'(?:const|static|static mut) (.*?): (.*?) = (.*)$', header)
-                if not m:
+                m0 = re.match(r'(?:const|static mut|static) ', header)
+                if not m0 or ' = ' not in header:
                     continue
-                name = m.group(1)
+                k = header.rindex(' = ')
+                left, rhs = header[m0.end():k], header[k + 3:].strip()
+                if ': ' not in left:
+                    continue
+                name, cty = left.rsplit(': ', 1)
                 body = Body(name, header, item, 'const')
-                body.ret_ty = m.group(2)
-                rhs = m.group(3).strip()
+                body.ret_ty = cty
                 if rhs != '{':
                     body.const_value = rhs.rstrip(';')
                 self.consts[name] = body
